@@ -229,6 +229,10 @@ func (pm *profileMerger) sampleKey(sample *Sample) sampleKey {
 		}
 	}
 
+	// Separate the string labels from the numeric labels, so that a string
+	// label cannot be confused with a numeric label encoded the same way.
+	putNumber(uint64(len(sample.Label)))
+
 	for _, l := range sortedKeys2(sample.NumLabel) {
 		putDelimitedString(l)
 		values := sample.NumLabel[l]
